@@ -609,12 +609,12 @@ class RewriteSim:
             from mathy_core import problems
             name, kw = rng.choice(PROBLEM_GENS)
             _random.seed(rng.randrange(2 ** 32))
-            problems._pretty_numbers = rng.random() < 0.7
+            problems.use_pretty_numbers(rng.random() < 0.7)
             try:
                 text = getattr(problems, name)(**kw)[0]
             except Exception:
                 text = "4x + 2x"
-            problems._pretty_numbers = True
+            problems.use_pretty_numbers(True)
             cfg["source"] = "problems." + name
         elif src < 0.4:
             inputs = rule_test_inputs()
